@@ -10,7 +10,7 @@ From Coq Require Import List ZArith NArith Bool String Permutation.
 Import ListNotations.
 From DD Require Import Base.PyStr Base.Value Hash.HashModel Hash.Equiv
   Hash.HashProofsBase Hash.HashProofsC06 Hash.HashProofsC07 Hash.HashProofsMemo Hash.HashProofsK2 Hash.HashMembers
-  Hash.HashAlike Hash.HashProofsAlike.
+  Hash.HashAlike Hash.HashProofsAlike Hash.HashXModel Hash.HashXProofs Hash.HashXEquiv Hash.HashXProofsEqv.
 
 (* Order-insensitive modes (ignore_iterable_order=True: nested-set and
    nested-multiset mode), every option record, every hasher, all values. *)
@@ -216,3 +216,59 @@ Theorem C06_eqvi_satisfiable :
    ~ eqvi ordered_mode (VSet [AInt 0; AInt 8]) (VSet [AInt 8; AInt 0])).
 Proof. split; [exact norep_example|exact k3_not_alike]. Qed.
 Print Assumptions C06_eqvi_satisfiable.
+
+(* ------------------------------------------------------------------ *)
+(* Round 3: the extended model Hash/HashXModel.v ([xhash]: more leaf types, item counts, apply_hash=False, _skip_this,
+   number_format_notation='e', ints beyond 2^53 under number formatting, truncate_datetime, ignore_type_in_groups,
+   _prep_dict dropping an item whose key hash is empty) is a conservative extension of the model the theorems above
+   are about: on embedded base values, with the new options at their defaults, no exclusion, a hasher that never
+   returns the empty string and no int beyond 2^53 under number formatting, it returns exactly [hash_pure]. *)
+Theorem C06_extended_model_conservative :
+  forall (H : pystr -> pystr), (forall s, H s <> []) ->
+  forall o v, ints_ok o v = true ->
+  xdeephash H no_skip (xmode o) (emb v) = Some (hash_pure H o v).
+Proof. exact xhash_conservative. Qed.
+Print Assumptions C06_extended_model_conservative.
+
+(* C06 on the extended universe (dates, datetimes, times, timedeltas, Decimals, paths, namedtuples / Enum members /
+   objects as leaves and containers): equal content ([xeqvi], Hash/HashXEquiv.v) hashes equally for EVERY hasher and
+   EVERY setting of the options the extended model has - the base option record, apply_hash, number_format_notation,
+   truncate_datetime, ignore_type_in_groups - and every exclusion predicate [skip] (the model of _skip_this) that does
+   not tell related values apart and, when ignore_iterable_order is set, does not look at list / set indices
+   ([psim]).  Stated on DeepHash(v, ...)[v] ([None] = the root itself is excluded). *)
+Theorem C06_extended_eqvi_hash :
+  forall (H : pystr -> pystr) (skip : xpath -> xvalue -> bool) (xo : xopts),
+  (forall p q a b, psim (xbase xo) p q -> xeqvi (xbase xo) a b -> skip p a = skip q b) ->
+  forall a b, xeqvi (xbase xo) a b -> xdeephash H skip xo a = xdeephash H skip xo b.
+Proof. exact xeqvi_hash. Qed.
+Print Assumptions C06_extended_eqvi_hash.
+
+(* the hypothesis holds of the exclusion options of the code as modelled ([skip_this]): exclude_types and
+   exclude_obj_callback in every mode, exclude_paths and include_paths as well when ignore_iterable_order=False ... *)
+Theorem C06_extended_exclusions :
+  forall (H : pystr -> pystr) (xo : xopts) (c : skip_cfg),
+  ignore_iterable_order (xbase xo) = false \/ (exclude_paths c = [] /\ include_paths c = []) ->
+  forall a b, xeqvi (xbase xo) a b -> xdeephash H (skip_this c) xo a = xdeephash H (skip_this c) xo b.
+Proof. intros H xo c Hc. apply xeqvi_hash. apply skip_this_ok. exact Hc. Qed.
+Print Assumptions C06_extended_exclusions.
+
+(* ... and not of exclude_paths in an order-insensitive mode: permuting a list moves its items to other paths
+   (exclude_paths=["root[0]"], [1, 2] / [2, 1]); the theorem is about non-trivial values (a dict with a date, a
+   Decimal, a Path key and a namedtuple, rebuilt in the other order, ints excluded by type, root hashed) *)
+Theorem C06_extended_witnesses :
+  (let a := XList [XAtom (XA (AInt 1)); XAtom (XA (AInt 2))] in
+   let b := XList [XAtom (XA (AInt 2)); XAtom (XA (AInt 1))] in
+   let c := mk_skip [[KIdx 0]] [] [] [] in
+   xeqvi default_opts a b /\
+   xdeephash hexhash (skip_this c) default_xopts a <> xdeephash hexhash (skip_this c) default_xopts b) /\
+  (let d := XAtom (XL (LDate 2020 1 2)) in
+   let a := XDict [(XA (AStr (s2p "a")), XList [d; XAtom (XL (LDecimal false 15 (-1)))]);
+                   (XL (LPath (s2p "/a/b")), XObj ONamed (s2p "Pt") [(s2p "x", XAtom (XA (AInt 1))); (s2p "y", d)])] in
+   let b := XDict [(XL (LPath (s2p "/a/b")), XObj ONamed (s2p "Pt") [(s2p "x", XAtom (XA (AInt 1))); (s2p "y", d)]);
+                   (XA (AStr (s2p "a")), XList [d; XAtom (XL (LDecimal false 15 (-1)))])] in
+   xeqvi default_opts a b /\
+   xdeephash hexhash (skip_this (mk_skip [] [] [XTInt] [])) default_xopts a =
+   xdeephash hexhash (skip_this (mk_skip [] [] [XTInt] [])) default_xopts b /\
+   xdeephash hexhash (skip_this (mk_skip [] [] [XTInt] [])) default_xopts a <> None).
+Proof. split; [exact paths_need_blindness|exact xeqvi_example]. Qed.
+Print Assumptions C06_extended_witnesses.
